@@ -2,6 +2,7 @@
   Mrm/Proofs/AccessP.lean — C15: read accessors never raise and agree with the document (targets).
 -/
 import Mrm.Spec.Access
+import Mrm.Spec.AccessHolds
 import Mrm.Proofs.HistInv
 import Mrm.Model.Collection
 import Mrm.Proofs.AccView
@@ -62,6 +63,35 @@ theorem stories_in_order (d : Xml) (v : RoView) (h : roView d = .ok v) :
       rfl
   · rw [h1]
     simp [Xml.childText, hslug]
+
+theorem itemView_note (it : Xml) : (itemView it).note = noteSpec it := by
+  unfold itemView noteSpec findNote
+  cases payloadOf it with
+  | none => rfl
+  | some p =>
+    simp only [Option.bind]
+    cases p.descendants.find? (fun c => c.tag == "studioCommand" && c.attr "type" == some "note") <;> rfl
+
+/-- every field of every item agrees with the document, the note included -/
+theorem items_agree (d : Xml) (v : RoView) (h : roView d = .ok v) :
+    ∃ rc, rcOf d = some rc ∧
+      v.stories.map (fun s => s.items.map (fun it => (it.id, it.slug, it.type, it.objectId, it.mosId, it.note))) =
+        (rc.findall "story").map (fun s => (s.findall "item").map (fun it =>
+          (Xml.childText (some it) "itemID", Xml.childText (some it) "itemSlug", Xml.childText (some it) "objType",
+           Xml.childText (some it) "objID", Xml.childText (some it) "mosID", noteSpec it))) := by
+  obtain ⟨rc, slug, vs, st, hrc, hslug, hvs, _, h1, _, h3, h4⟩ := roView_inv h
+  refine ⟨rc, hrc, ?_⟩
+  rw [h3]
+  rcases roStories_inv hvs with ⟨he, rfl⟩ | ⟨st', offs, _, _, hm⟩
+  · rw [he]; rfl
+  · apply mapExcept_map_eq _ _ _ hm
+    intro a b hab
+    obtain ⟨_, _, _, _, _, _, _, _, _, _, _, hit⟩ := storyView_inv hab
+    rw [hit, List.map_map]
+    apply List.map_congr_left
+    intro it _
+    simp only [Function.comp, ← itemView_note]
+    rfl
 
 /-- absent optional data yields `none` -/
 theorem absent_is_none (d : Xml) (v : RoView) (h : roView d = .ok v) :
